@@ -21,6 +21,7 @@ struct Gen<'a> {
     mapped: BTreeMap<(u64, u64), (u64, u64)>,         // (k, page) -> (frame, flags): what the generator believes
     data_frames: Vec<u64>,
     rec: Option<u64>,
+    zero_data: bool,                                  // physical address 0 may be mapped as a data frame in this history
 }
 impl Gen<'_> {
     fn page(&mut self, k: u64) -> u64 {
@@ -55,6 +56,7 @@ impl Gen<'_> {
         }
     }
     fn frame(&mut self, k: u64) -> u64 {
+        if self.zero_data && self.rng.chance(1, 6) { return 0; }
         let f = match self.rng.below(8) {
             0 => 0x000f_ffff_c000_0000,
             1 => (self.rng.next() & 0x000f_ffff_ffff_e000) & !(SZ[k as usize] - 1),
@@ -92,10 +94,11 @@ fn upper(a: u64) -> u64 {
 
 pub fn gen(prop: &str, seed: u64, thorough: bool, out: &mut impl Write) {
     let mut rng = Rng::new(seed ^ u64::from_str_radix(&prop[1..], 10).unwrap() * 0x2718281);
-    let nhist = match (prop, thorough) { (_, true) => 3_600, ("C10", false) => 450, (_, false) => 420 };
+    // "C20": histories on the recursive mapper only (the behavioural half of C20: which addresses it dereferences)
+    let nhist = match (prop, thorough) { ("C20", true) => 1_500, ("C20", false) => 240, (_, true) => 3_600, ("C10", false) => 450, (_, false) => 420 };
     let maxops: u64 = if thorough { 80 } else { 40 };
     for h in 0..nhist {
-        let kind = [0u64, 2, 1][h % 3];
+        let kind = if prop == "C20" { 1 } else { [0u64, 2, 1][h % 3] };
         let r = if kind == 1 { 1 + rng.below(150) } else { 0 };
         let root = 0x10_0000u64;
         // virtual regions: both halves, first/last GiB of each half, plus random ones
@@ -111,14 +114,18 @@ pub fn gen(prop: &str, seed: u64, thorough: bool, out: &mut impl Write) {
         let nal = 4 + rng.below(24);
         let mut allocs: Vec<u64> = vec![];
         let fail_mode = if prop == "C02" { rng.below(3) } else { rng.below(8) };
+        // physical frame 0 is a frame like any other: in some histories the allocator hands it out as
+        // a page table, in others it is mapped as a (huge) data frame
+        let zero_role = rng.below(8);
+        let zero_at = rng.below(3);
         for i in 0..nal {
-            let f = match rng.below(6) { 0 => 0x20_0000 + (i << 21), 1 => 0x4000_0000u64 * 8 + (i << 30), _ => 0x20_0000 + 0x1000 * (1 + 2 * i) + (rng.below(4) << 24) };
+            let f = if zero_role == 0 && i == zero_at { 0 } else { match rng.below(6) { 0 => 0x20_0000 + (i << 21), 1 => 0x4000_0000u64 * 8 + (i << 30), _ => 0x20_0000 + 0x1000 * (1 + 2 * i) + (rng.below(4) << 24) } };
             let fail = match fail_mode { 0 => i > 0 && rng.chance(1, 4), 1 => i >= nal / 2, _ => false };
             allocs.push(if fail { u64::MAX } else { f });
         }
         let mut uniq = HashSet::new();
         for f in allocs.iter_mut() { if *f != u64::MAX && !uniq.insert(*f) { *f = u64::MAX; } }
-        let mut g = Gen { rng: &mut rng, regions, mapped: BTreeMap::new(), data_frames: vec![], rec: if kind == 1 { Some(r) } else { None } };
+        let mut g = Gen { rng: &mut rng, regions, mapped: BTreeMap::new(), data_frames: vec![], rec: if kind == 1 { Some(r) } else { None }, zero_data: zero_role == 1 };
         let _ = g.rec;
         let mut ops: Vec<u64> = vec![13];
         let nops = 3 + g.rng.below(maxops);
@@ -285,6 +292,8 @@ pub fn judge(c: &[u64], a: &[i128]) -> (Vec<(&'static str, &'static str)>, Vec<&
         if ans.len() < 2 { break; }
         let (res, calls, freed) = (&ans[..ans.len() - 2], ans[ans.len() - 2], ans[ans.len() - 1]);
         if res.first() == Some(&-20) { fail!("C09", "a recursive-mapper access did not resolve to a page table of the hierarchy (page fault)"); break; }
+        if res.first() == Some(&-22) { fail!("C20", "the recursive mapper dereferenced a virtual address that is not the recursive address (index repeated 3/2/1 times, then the page's upper indices, sign-extended) of one of the page's tables"); break; }
+        if res.first() == Some(&-21) { fail!("C10", "a page table was handed to the deallocator while an entry of the hierarchy still pointed to it (released before it was unlinked from its parent)"); break; }
         let ok = res.first() == Some(&0);
         let d_calls = calls - prev_calls;
         let d_freed = freed - prev_freed;
